@@ -1125,7 +1125,9 @@ fn c01(cx: &Ctx, o: &mut Outcome) {
         }
         let end = t.find(|c| c == '?' || c == '#').unwrap_or(t.len());
         let path = &t[..end];
-        if model::climbs(path) || model::climbs(&model::percent_decode_once(path)) {
+        // literal dot-segments only: whether %2e is a dot is the server's choice, and the
+        // tripwire above covers servers that decode
+        if model::climbs(path) {
             if resp.code < 400 {
                 let served = marker_scan(cx, &resp.body, &[]);
                 o.verdicts.push(v("C01", format!("climb_not_refused.{}", target_shape(t)), format!("target {:?} climbs above the served directory and was answered with status {}{}", t, resp.code, served.map(|m| format!(" and the content of {}", m)).unwrap_or_default()), Some(i)));
